@@ -14,6 +14,8 @@ import (
 	"k8s.io/apimachinery/pkg/api/resource"
 	metav1 "k8s.io/apimachinery/pkg/apis/meta/v1"
 	"k8s.io/apimachinery/pkg/types"
+	"k8s.io/apimachinery/pkg/version"
+	fakediscovery "k8s.io/client-go/discovery/fake"
 	"k8s.io/client-go/kubernetes/fake"
 
 	kaifake "github.com/NVIDIA/KAI-scheduler/pkg/apis/client/clientset/versioned/fake"
@@ -33,6 +35,7 @@ type NodeCfg struct {
 	Gpu  int `json:"gpu"`
 	Cpu  int `json:"cpu"`  // milli
 	Gmem int `json:"gmem"` // memory units of one GPU device; 100 = no nvidia.com/gpu.memory label (the code's default), else MiB
+	Dra  int `json:"dra"`  // > 0: the node's GPUs (dra == gpu) are published as DRA devices "0".."dra-1" by one ResourceSlice, not as the extended resource nvidia.com/gpu
 }
 type QueueCfg struct {
 	Parent string `json:"parent"`
@@ -53,6 +56,11 @@ type PodCfg struct {
 	Node   string   `json:"node"`
 	Groups []string `json:"groups"`
 	Ord    int      `json:"ord"` // position in the (sorted) pod list; the model folds the initial node accounting in this order
+	// one DRA ResourceClaim (one GPU device of class draClass): the pod then requests its GPU through the claim
+	// (kind whole, gpu 1 in the model), not through the extended resource
+	Claim string `json:"claim"` // name of the ResourceClaim object; "" = the pod has no claim
+	Pcn   string `json:"pcn"`   // name of the entry in pod.spec.resourceClaims; differs from Claim for a claim generated from a ResourceClaimTemplate
+	Dev   int    `json:"dev"`   // Running / Releasing pods: index of the device of Node the claim is allocated to (reserved for the pod); else -1
 }
 type Cfg struct {
 	Nodes  map[string]NodeCfg  `json:"nodes"`
@@ -92,6 +100,25 @@ func NewWorld(cfg *Cfg, config *conf.SchedulerConfiguration) (*World, error) {
 	kai := kaifake.NewSimpleClientset()
 	ctx := context.TODO()
 
+	dra := cfg.hasDRA()
+	if dra {
+		// the scheduler enables DynamicResourceAllocation from what the API server's discovery reports
+		// (cache.New -> featuregates.SetDRAFeatureGate): a 1.34 server that serves resource.k8s.io/v1
+		fd, ok := kube.Discovery().(*fakediscovery.FakeDiscovery)
+		if !ok {
+			return nil, fmt.Errorf("fake clientset without fake discovery")
+		}
+		fd.FakedServerVersion = &version.Info{Major: "1", Minor: "34", GitVersion: "v1.34.2"}
+		kube.Resources = append(kube.Resources, &metav1.APIResourceList{GroupVersion: "resource.k8s.io/v1",
+			APIResources: []metav1.APIResource{
+				{Name: "resourceclaims", Namespaced: true, Kind: "ResourceClaim"},
+				{Name: "resourceslices", Kind: "ResourceSlice"},
+				{Name: "deviceclasses", Kind: "DeviceClass"}}})
+		if err := createDRAObjects(ctx, kube, cfg); err != nil {
+			return nil, err
+		}
+	}
+
 	for _, name := range sortedKeys(cfg.Nodes) {
 		n := cfg.Nodes[name]
 		rl := v1.ResourceList{
@@ -99,7 +126,10 @@ func NewWorld(cfg *Cfg, config *conf.SchedulerConfiguration) (*World, error) {
 			v1.ResourceMemory: resource.MustParse("64Gi"),
 			v1.ResourcePods:   resource.MustParse("110"),
 		}
-		if n.Gpu > 0 {
+		if n.Dra > 0 && n.Dra != n.Gpu {
+			return nil, fmt.Errorf("node %s: dra %d != gpu %d", name, n.Dra, n.Gpu)
+		}
+		if n.Gpu > 0 && n.Dra == 0 {
 			rl["nvidia.com/gpu"] = *resource.NewQuantity(int64(n.Gpu), resource.DecimalSI)
 		}
 		labels := map[string]string{"nvidia.com/gpu.count": fmt.Sprint(n.Gpu)}
@@ -146,7 +176,10 @@ func NewWorld(cfg *Cfg, config *conf.SchedulerConfiguration) (*World, error) {
 		req := v1.ResourceList{v1.ResourceCPU: *resource.NewMilliQuantity(int64(p.Cpu), resource.DecimalSI)}
 		ann := map[string]string{"pod-group-name": p.Job}
 		lab := map[string]string{}
-		if p.Kind == "whole" && p.Gpu > 0 {
+		if p.Claim != "" && (p.Kind != "whole" || p.Gpu != 1) {
+			return nil, fmt.Errorf("pod %s: a claim pod is kind whole with gpu 1 in the model", name)
+		}
+		if p.Kind == "whole" && p.Gpu > 0 && p.Claim == "" {
 			req["nvidia.com/gpu"] = *resource.NewQuantity(int64(p.Gpu), resource.DecimalSI)
 		}
 		if p.Kind == "frac" {
@@ -164,6 +197,19 @@ func NewWorld(cfg *Cfg, config *conf.SchedulerConfiguration) (*World, error) {
 			Spec: v1.PodSpec{SchedulerName: "kai-scheduler", Containers: []v1.Container{{Name: "c", Image: "i",
 				Resources: v1.ResourceRequirements{Requests: req, Limits: req}}}},
 			Status: v1.PodStatus{Phase: v1.PodPending},
+		}
+		if p.Claim != "" {
+			claimName := p.Claim
+			if p.Pcn == p.Claim {
+				// the pod refers to a ResourceClaim object directly
+				pod.Spec.ResourceClaims = []v1.PodResourceClaim{{Name: p.Pcn, ResourceClaimName: &claimName}}
+			} else {
+				// generated from a ResourceClaimTemplate: the object's name is published in the pod's status
+				tmpl := p.Pcn + "-template"
+				pod.Spec.ResourceClaims = []v1.PodResourceClaim{{Name: p.Pcn, ResourceClaimTemplateName: &tmpl}}
+				pod.Status.ResourceClaimStatuses = []v1.PodResourceClaimStatus{{Name: p.Pcn, ResourceClaimName: &claimName}}
+			}
+			pod.Spec.Containers[0].Resources.Claims = []v1.ResourceClaim{{Name: p.Pcn}}
 		}
 		switch p.St {
 		case "Running":
@@ -193,6 +239,12 @@ func NewWorld(cfg *Cfg, config *conf.SchedulerConfiguration) (*World, error) {
 	stop := make(chan struct{})
 	c.Run(stop)
 	c.WaitForCacheSync(stop)
+	if dra {
+		if err := waitForDRA(c, cfg); err != nil {
+			close(stop)
+			return nil, err
+		}
+	}
 	w := &World{cfg: cfg, cache: c, stop: stop, config: config,
 		params: conf.SchedulerParams{SchedulerName: "kai-scheduler", FullHierarchyFairness: true,
 			PartitionParams: &conf.SchedulingNodePoolParams{}, QueueLabelKey: "kai.scheduler/queue"}}
